@@ -32,6 +32,7 @@ var c08Binds = []struct{ key, action string }{
 	// search is disabled by the last action of a key whose earlier actions ask for a new search
 	{"alt-g", "toggle-sort+toggle-search"},
 	{"alt-h", "exclude+toggle-search"},
+	{"alt-i", "put(a)+toggle-search"},
 }
 
 func genDelay(r *zsim.Rng) int {
@@ -136,7 +137,7 @@ func genC08Plan(r *zsim.Rng) *sysPlan {
 			ev.Keys = []string{"ctrl-u", "ctrl-w"}[r.Intn(2)]
 		case k < 19:
 			ev.Keys = c08Binds[r.Intn(len(c08Binds))].key
-			if ev.Keys == "alt-p" || ev.Keys == "alt-g" || ev.Keys == "alt-h" {
+			if (ev.Keys == "alt-p" || ev.Keys == "alt-g" || ev.Keys == "alt-h" || ev.Keys == "alt-i") && r.Bool() {
 				// the query that gets frozen is only well defined once the coordinator has seen the latest one
 				p.Events = append(p.Events, sysEvent{Kind: "settle"})
 			}
@@ -400,7 +401,9 @@ func c08FrozenQuery(r *sysRun, final bool) (string, bool) {
 					if override != nil {
 						frozen = *override
 					}
-					known = prevSettle
+					// (whether or not the coordinator has already seen that query: the string in effect is the one
+					// the query line held when search was switched off)
+					_ = prevSettle
 				}
 			case bound && strings.HasPrefix(act, "search("):
 				x := strings.TrimSuffix(strings.TrimPrefix(act, "search("), ")")
